@@ -101,6 +101,28 @@ def d1(ctx: Ctx):
     D = decoderfacts(ctx)
     ref = _ref_vectors()
     n_closures = 0
+    # PIX: sixteen grey levels, sample n (0..15) is shown as 255 - 17*n (0 = white ... 15 = black)
+    from .decoders import IntEvalError as _IEE1, int_eval as _ie1
+
+    pf = D.fn("pixtopgm", "convert")
+    greys = [c for c in ast.walk(pf) if isinstance(c, ast.Call) and call_name(c) in ("chr", "bytes", "pack") and len(c.args) == 1 and any(isinstance(x, (ast.BinOp,)) for x in ast.walk(c.args[0])) and len(names_loaded(c.args[0])) == 1]
+    modc1 = {k_: v_.value for k_, v_ in D.mods["pixtopgm"].assigns.items() if isinstance(v_, ast.Constant) and isinstance(v_.value, int)}
+    if not greys:
+        ctx.undecided("pixtopgm.grey", "no expression that turns a sample into a grey level found", file=DECODERS["pixtopgm"], line=pf.lineno)
+    for k_, g in enumerate(greys):
+        var = next(iter(names_loaded(g.args[0])))
+        e_ = g.args[0].elts[0] if isinstance(g.args[0], (ast.List, ast.Tuple)) and len(g.args[0].elts) == 1 else g.args[0]
+        # the expression is a function of the byte: the two samples are its nibbles
+        try:
+            table = [_ie1(e_, dict(modc1, **{var: v_})) for v_ in range(256)]
+        except _IEE1 as ex:
+            ctx.undecided(f"pixtopgm.grey#{k_ + 1}", f"`{unparse(e_)}` is not evaluable ({ex})", file=DECODERS["pixtopgm"], line=g.lineno)
+            continue
+        hi = [255 - 17 * (v_ >> 4) for v_ in range(256)]
+        lo = [255 - 17 * (v_ & 15) for v_ in range(256)]
+        ok = table in (hi, lo)
+        bad = next((v_ for v_ in range(256) if table[v_] not in (hi[v_], lo[v_])), None)
+        ctx.ob(f"pixtopgm.grey#{k_ + 1}", ok, "" if ok else f"`{unparse(e_)}` does not give the sixteen grey levels 255 - 17*n of a nibble (byte {bad}: {table[bad] if bad is not None else '?'}, expected {hi[bad] if bad is not None else '?'} or {lo[bad] if bad is not None else '?'})", file=DECODERS["pixtopgm"], line=g.lineno)
     for dec in ("hrstoppm", "mgetoppm", "cm3toppm", "rattoppm"):
         fn = D.fn(dec, "convert")
         cl = _palette_closures(fn)
@@ -695,6 +717,9 @@ class _Count:
             if it.id in self.env_len:
                 return self.env_len[it.id]
             return Poly.atom(f"len({it.id})")
+        n_ = _seq_len(it)  # a sequence built from a fixed-size read (the nominal, complete read)
+        if n_ is not None:
+            return Poly.const(n_)
         return Poly.atom(f"<iter {unparse(it)}>")
 
     env_len: Dict[str, Poly] = {}
@@ -941,7 +966,7 @@ def d4(ctx: Ctx):
             where = (" on the path [" + ", ".join(conds_path) + "]") if conds_path else ""
             if not equal:
                 msg = f"header announces {wn} x {hn} = {announced!r} bytes of samples, the loops write {written!r}{where}"
-                fb = [a for k in wr_n.terms for a in k if a.startswith("<file byte ")]
+                fb = [a for k in wr_n.terms for a in k if a.startswith("<file byte")]
                 if fb:
                     msg += f" (the count depends on the unvalidated file field {fb[0]})"
             else:
@@ -1283,6 +1308,7 @@ def d6(ctx: Ctx):
                             "" if okp else f"the guard `if {unparse(guard.test)}: break` does not fire exactly when `{ctr}` reaches 0 (at 0: {fires_at_zero}, at 1: {fires_at_one}): a run that crosses the end of the picture writes one byte more (or less) than the header announces",
                             file=rel,
                             line=guard.lineno,
+                            props=["C19", "C17", "C18"],  # a run that covers the last bytes of the picture is a valid encoding (C17) of a complete image (C18)
                         )
                     if guard is not None:
                         # the sample of this iteration is written before the counter that accounts for it is tested
@@ -1740,6 +1766,12 @@ def d12(ctx: Ctx):
     cntp = un.args.args[1].arg if len(un.args.args) > 2 else "?"
     okb = outer is not None and isinstance(outer.test, ast.Compare) and isinstance(outer.test.ops[0], ast.Lt) and isinstance(outer.test.comparators[0], ast.Name) and outer.test.comparators[0].id == cntp
     ctx.ob("unsquash.record-bound", okb, "" if okb else f"the record loop runs on `{unparse(outer.test) if outer is not None else None}`, not up to the length `{cntp}` the record's count byte announces: a truncated last record is decoded from whatever bytes are left and the short picture is reported as success", file=rel, line=outer.lineno if outer is not None else un.lineno, props=["C19", "C17"])
+    # the record bytes are taken one by one (an index past the end fails): a slice of the input would quietly yield less
+    datap = un.args.args[0].arg if un.args.args else "?"
+    lenient = [n for n in ast.walk(un) if isinstance(n, ast.Subscript) and isinstance(n.slice, ast.Slice) and isinstance(n.value, ast.Name) and n.value.id == datap]
+    checked = any(isinstance(c, ast.Compare) and any(isinstance(x, ast.Call) and call_name(x) == "len" for x in ast.walk(c)) for c in ast.walk(un))
+    oks_ = not lenient or checked
+    ctx.ob("unsquash.strict-input", oks_, "" if oks_ else f"`{unparse(lenient[0])}` takes a slice of the record: when the file ends inside a literal group the slice is simply shorter, the record decodes short and the picture is written with fewer samples than announced, as a success", file=rel, line=lenient[0].lineno if lenient else un.lineno, props=["C19"])
     trunc = _ac(un, f"$d[0:{lenp}]") or _ac(un, f"$d[:{lenp}]")
     ctx.ob("unsquash.truncate", trunc, "" if trunc else "records are no longer truncated to the nominal record length", file=rel, line=un.lineno, props=["C17"])
 
@@ -1992,7 +2024,7 @@ def d16(ctx: Ctx):
 MGE_LAYOUT = {"palette-kind": 17, "compression": 18}  # ColorMax 3 MGE header: type, 16 palette bytes, RGB/CMP flag, compression flag, 30 title bytes ...
 
 
-@rule("D15", "HEADER-LAYOUT: the MGE header fields are read from the offsets the format assigns to them (palette kind at 17, compression flag at 18)", ["C16", "C17"], floor=2)
+@rule("D15", "HEADER-LAYOUT: the MGE header fields are read from the offsets the format assigns to them (palette kind at 17, compression flag at 18)", ["C16", "C17", "C18"], floor=2, default_props=["C16", "C17"])
 def d15(ctx: Ctx):
     D = decoderfacts(ctx)
     fn = D.fn("mgetoppm", "convert")
@@ -2045,6 +2077,35 @@ def d15(ctx: Ctx):
             role_var.setdefault("palette-kind", tv[0])
         if any(isinstance(s_, ast.While) for b in n.body + n.orelse for s_ in ast.walk(b)) and any(isinstance(s_, ast.For) for b in n.body + n.orelse for s_ in ast.walk(b)):
             role_var.setdefault("compression", tv[0])
+    # a flag byte means `zero` / `not zero`: whatever is derived from it separates 0 from every other value, and nothing else
+    import copy as _copy
+
+    from .decoders import IntEvalError as _IEE5, int_eval as _ie5
+
+    class _ByteVar(ast.NodeTransformer):
+        def visit_Call(self, n_):
+            if call_name(n_) == "ord" and any(isinstance(c_, ast.Call) and call_name(c_) == "read" for c_ in ast.walk(n_)):
+                return ast.copy_location(ast.Name(id="byte__", ctx=ast.Load()), n_)
+            self.generic_visit(n_)
+            return n_
+
+    for role, rv in sorted(role_var.items()):
+        expr = None
+        if rv.startswith("<test@"):
+            expr = next((n.test for n in ast.walk(fn) if isinstance(n, ast.If) and f"<test@{id(n)}>" == rv), None)
+        else:
+            d_ = [a for a in ast.walk(fn) if isinstance(a, ast.Assign) and isinstance(a.targets[0], ast.Name) and a.targets[0].id == rv and any(isinstance(c_, ast.Call) and call_name(c_) == "read" for c_ in ast.walk(a.value))]
+            expr = d_[-1].value if d_ else None
+        if expr is None:
+            continue
+        e2 = _ByteVar().visit(_copy.deepcopy(expr))
+        try:
+            tv = [bool(_ie5(e2, {"byte__": v_})) for v_ in range(256)]
+        except _IEE5:
+            continue  # the flag is kept as a number and tested elsewhere
+        okf = tv[0] != tv[1] and len(set(tv[1:])) == 1
+        odd = next((v_ for v_ in range(2, 256) if tv[v_] != tv[1]), None)
+        ctx.ob(f"mgetoppm.{role}:zero-test", okf, "" if okf else f"the {role} flag is derived as `{unparse(expr)}`: the format distinguishes zero from non-zero, but this treats {odd if odd is not None else 1} like {'0' if (odd is not None and tv[odd] == tv[0]) or odd is None else 'a different case'} - files whose flag byte has that value are decoded the other way", file=rel, line=getattr(expr, "lineno", fn.lineno), props=["C16", "C17", "C18"])
     for role, want in MGE_LAYOUT.items():
         ctx.need(role in role_var, f"mgetoppm.{role}", "the header flag with this role was not recognised")
         got = offsets[role_var[role]]
@@ -2240,3 +2301,54 @@ def d20(ctx: Ctx):
         inside = [d_ for d_ in defs if any(x is d_ for x in ast.walk(pl))]
         ok = bool(inside) and len(inside) == len(defs)
         ctx.ob(f"cm3toppm.page-loop:{nm}", ok, "" if ok else f"the line count `{nm}` that bounds the line loop (line {il.lineno}) is read at line {defs[0].lineno}, outside the page loop (line {pl.lineno}): the count byte of the second page stays in the stream and is decoded as a line control byte, every later byte is out of step", file=rel, line=defs[0].lineno)
+
+
+# ---------------------------------------------------------------------------
+# D21 TEXT-VS-NUMBER
+
+
+@rule("D21", "TEXT-VS-NUMBER: a value a decoder holds as text (the characters of a read, not their codes) is never compared with a number - such a test can never hold, so the refusal or branch it guards is dead", ["C19", "C16"], floor=1, default_props=["C19"])
+def d21(ctx: Ctx):
+    D = decoderfacts(ctx)
+    n = 0
+
+    def is_text(e: ast.AST) -> Optional[bool]:
+        """True: characters (iotostr(...) / a slice or element of it); False: a number (ord(...), arithmetic); None: unknown."""
+        if isinstance(e, ast.Call):
+            cn = call_name(e)
+            if cn in ("ord", "len", "int", "getbit"):
+                return False
+            if cn == "iotostr":
+                return True
+            return None
+        if isinstance(e, ast.Subscript):
+            return is_text(e.value)
+        if isinstance(e, (ast.BinOp, ast.Compare, ast.BoolOp, ast.UnaryOp)):
+            return False
+        if isinstance(e, ast.Constant):
+            return isinstance(e.value, str)
+        return None
+
+    for dec in ("rattoppm", "mgetoppm", "cm3toppm", "hrstoppm", "maxtoppm", "pixtopgm"):
+        fn = D.fn(dec, "convert")
+        rel = DECODERS[dec]
+        defs: Dict[str, List[ast.Assign]] = {}
+        for a in walk_no_nested(fn):
+            if isinstance(a, ast.Assign) and len(a.targets) == 1 and isinstance(a.targets[0], ast.Name):
+                defs.setdefault(a.targets[0].id, []).append(a)
+        for c in ast.walk(fn):
+            if not (isinstance(c, ast.Compare) and len(c.ops) == 1 and isinstance(c.ops[0], (ast.Eq, ast.NotEq, ast.Lt, ast.LtE, ast.Gt, ast.GtE))):
+                continue
+            for a, b in ((c.left, c.comparators[0]), (c.comparators[0], c.left)):
+                if not (isinstance(b, ast.Constant) and isinstance(b.value, int) and not isinstance(b.value, bool)):
+                    continue
+                kind = None
+                if isinstance(a, ast.Name) and a.id in defs and len(defs[a.id]) == 1:
+                    kind = is_text(defs[a.id][0].value)
+                elif not isinstance(a, ast.Name):
+                    kind = is_text(a)
+                if kind is None:
+                    continue
+                n += 1
+                ctx.ob(f"{dec}:`{unparse(c)}`", kind is False, "" if kind is False else f"`{unparse(c)}` compares text (the characters returned by iotostr(read ...)) with the number {b.value}: it is never true, so the header refusal / branch it guards never happens and a file with that field set is decoded as if it were well-formed", file=rel, line=c.lineno)
+    ctx.need(n >= 3, "decoders", f"only {n} comparisons of header values with numbers found")
